@@ -1596,3 +1596,332 @@ def m_slice_split_first(ctx, cty, a):
     if e <= s:
         return opt_none()
     return opt_some(tup(Ref(lst, s), SliceRef(lst, s + 1, e)))
+
+
+@model("std::ops::RangeInclusive::new")
+def m_range_inclusive_new(ctx, cty, a):
+    return Agg("std::ops::RangeInclusive", None, [a[0], a[1], False])
+
+
+@model("std::ops::RangeInclusive::start", "std::ops::RangeInclusive::end")
+def m_range_inclusive_bound(ctx, cty, a):
+    r = deref(a[0])
+    return Ref(r.fields, 0 if cty.a[-1][0] == "start" else 1)
+
+
+# ------------------------------------------------------------------ more Vec / Option / iterator operations
+@model("std::vec::Vec::swap_remove")
+def m_vec_swap_remove(ctx, cty, a):
+    v = deref1(a[0])
+    i = ctx.concretize(a[1], "swap_remove")
+    if i >= len(v.items):
+        raise PanicPath("swap_remove index out of bounds", "bounds")
+    x = v.items[i]
+    last = v.items.pop()
+    if i < len(v.items):
+        v.items[i] = last
+    return x
+
+
+@model("std::vec::Vec::extend", "std::vec::Vec::extend_from_within")
+def m_vec_extend(ctx, cty, a):
+    return m_extend(ctx, cty, a)
+
+
+@model("std::vec::Vec::sort_by", "core::slice::<impl [_]>::sort_by", "core::slice::<impl [_]>::sort_unstable_by")
+def m_sort_by(ctx, cty, a):
+    lst, s, e = as_list(a[0])
+    f = new_ref(a[1], True)
+    out = []
+    for x in lst[s:e]:
+        pos = len(out)
+        for j in range(len(out) - 1, -1, -1):
+            if ctx.call_closure(f, [new_ref(x), new_ref(out[j])]).variant == 0:
+                pos = j
+            else:
+                break
+        out.insert(pos, x)
+    lst[s:e] = out
+    return unit()
+
+
+@model("std::vec::Vec::sort_by_key", "core::slice::<impl [_]>::sort_by_key", "core::slice::<impl [_]>::sort_unstable_by_key")
+def m_sort_by_key(ctx, cty, a):
+    lst, s, e = as_list(a[0])
+    f = new_ref(a[1], True)
+    keyed = [(ctx.call_closure(f, [new_ref(x)]), x) for x in lst[s:e]]
+    out = []
+    for k, x in keyed:
+        pos = len(out)
+        for j in range(len(out) - 1, -1, -1):
+            if key_cmp(ctx, k, out[j][0]) < 0:
+                pos = j
+            else:
+                break
+        out.insert(pos, (k, x))
+    lst[s:e] = [x for _, x in out]
+    return unit()
+
+
+@model("std::vec::Vec::sort", "std::vec::Vec::sort_unstable")
+def m_vec_sort(ctx, cty, a):
+    return m_slice_sort(ctx, cty, a)
+
+
+@model("core::slice::<impl [_]>::binary_search", "std::vec::Vec::binary_search")
+def m_binary_search(ctx, cty, a):
+    items = seq_items(a[0])
+    for i, x in enumerate(items):
+        c = key_cmp(ctx, x, a[1])
+        if c == 0:
+            return res_ok(i)
+        if c > 0:
+            return res_err(i)
+    return res_err(len(items))
+
+
+@model("core::slice::<impl [_]>::starts_with", "core::slice::<impl [_]>::ends_with")
+def m_slice_starts_with(ctx, cty, a):
+    v = deref(a[0])
+    if isinstance(v, (SStr, StringObj)):
+        s, p = as_sstr(v), as_sstr(a[1])
+        return s.startswith(p) if cty.a[-1][0] == "starts_with" else s.endswith(p)
+    xs, ys = seq_items(a[0]), seq_items(a[1])
+    if len(ys) > len(xs):
+        return False
+    part = xs[:len(ys)] if cty.a[-1][0] == "starts_with" else xs[len(xs) - len(ys):]
+    return b_and(*[struct_eq(ctx, x, y) for x, y in zip(part, ys)])
+
+
+@model("core::slice::<impl [_]>::concat")
+def m_slice_concat(ctx, cty, a):
+    out = []
+    for it in seq_items(a[0]):
+        out.extend(clone_value(ctx, x) for x in seq_items(it))
+    return VecObj(out)
+
+
+@model("core::slice::<impl [_]>::windows", "core::slice::<impl [_]>::chunks")
+def m_slice_windows(ctx, cty, a):
+    lst, s, e = as_list(a[0])
+    n = ctx.concretize(a[1], "window size")
+    if cty.a[-1][0] == "windows":
+        return seq_iter([SliceRef(lst, i, i + n) for i in range(s, e - n + 1)], "windows")
+    return seq_iter([SliceRef(lst, i, min(i + n, e)) for i in range(s, e, n)], "chunks")
+
+
+@model(OPT + "replace")
+def m_opt_replace(ctx, cty, a):
+    r = a[0]
+    old = r.get()
+    r.set(opt_some(a[1]))
+    return old
+
+
+@model(OPT + "zip")
+def m_opt_zip(ctx, cty, a):
+    if a[0].variant == 1 and a[1].variant == 1:
+        return opt_some(tup(a[0].fields[0], a[1].fields[0]))
+    return opt_none()
+
+
+@model(OPT + "or")
+def m_opt_or(ctx, cty, a):
+    return a[0] if a[0].variant == 1 else a[1]
+
+
+@model(OPT + "or_else")
+def m_opt_or_else(ctx, cty, a):
+    return a[0] if a[0].variant == 1 else ctx.call_closure(a[1], [])
+
+
+@model(OPT + "and")
+def m_opt_and(ctx, cty, a):
+    return a[1] if a[0].variant == 1 else opt_none()
+
+
+@model(OPT + "xor")
+def m_opt_xor(ctx, cty, a):
+    if a[0].variant == 1 and a[1].variant == 0:
+        return a[0]
+    if a[0].variant == 0 and a[1].variant == 1:
+        return a[1]
+    return opt_none()
+
+
+@model(OPT + "get_or_insert")
+def m_opt_get_or_insert(ctx, cty, a):
+    r = a[0]
+    o = r.get()
+    if o.variant == 0:
+        o = opt_some(a[1])
+        r.set(o)
+    return Ref(o.fields, 0, True)
+
+
+@model(OPT + "inspect", RES + "inspect")
+def m_inspect(ctx, cty, a):
+    o = a[0]
+    if o.variant == (1 if o.ty.endswith("Option") else 0):
+        ctx.call_closure(a[1], [Ref(o.fields, 0)])
+    return o
+
+
+@model(RES + "or_else")
+def m_res_or_else(ctx, cty, a):
+    r = a[0]
+    return r if r.variant == 0 else ctx.call_closure(a[1], [r.fields[0]])
+
+
+@model(RES + "unwrap_or_else")
+def m_res_unwrap_or_else2(ctx, cty, a):
+    r = a[0]
+    return r.fields[0] if r.variant == 0 else ctx.call_closure(a[1], [r.fields[0]])
+
+
+@model(RES + "is_ok_and")
+def m_res_is_ok_and(ctx, cty, a):
+    r = a[0]
+    return ctx.call_closure(a[1], [r.fields[0]]) if r.variant == 0 else False
+
+
+@model(RES + "is_err_and")
+def m_res_is_err_and(ctx, cty, a):
+    r = a[0]
+    return ctx.call_closure(a[1], [r.fields[0]]) if r.variant == 1 else False
+
+
+@model(IT + "skip_while")
+def m_it_skip_while(ctx, cty, a):
+    src, f = a[0], new_ref(a[1], True)
+    started = [False]
+
+    def nxt():
+        while True:
+            v = iter_next(ctx, src)
+            if v is STOP:
+                return STOP
+            if started[0] or not ctx.decide(ctx.call_closure(f, [new_ref(v)])):
+                started[0] = True
+                return v
+    return adaptor(nxt, "skip_while", src)
+
+
+@model(IT + "map_while")
+def m_it_map_while(ctx, cty, a):
+    src, f = a[0], new_ref(a[1], True)
+    done = [False]
+
+    def nxt():
+        if done[0]:
+            return STOP
+        v = iter_next(ctx, src)
+        if v is STOP:
+            return STOP
+        r = ctx.call_closure(f, [v])
+        if r.variant == 1:
+            return r.fields[0]
+        done[0] = True
+        return STOP
+    return adaptor(nxt, "map_while", src)
+
+
+@model(IT + "inspect")
+def m_it_inspect(ctx, cty, a):
+    src, f = a[0], new_ref(a[1], True)
+
+    def nxt():
+        v = iter_next(ctx, src)
+        if v is not STOP:
+            ctx.call_closure(f, [new_ref(v)])
+        return v
+    return adaptor(nxt, "inspect", src)
+
+
+@model(IT + "max_by", IT + "min_by")
+def m_it_max_by(ctx, cty, a):
+    xs = iter_drain(ctx, a[0])
+    f = new_ref(a[1], True)
+    if not xs:
+        return opt_none()
+    want_max = cty.c[0][0] == "max_by"
+    best = xs[0]
+    for x in xs[1:]:
+        c = ctx.call_closure(f, [new_ref(x), new_ref(best)]).variant - 1
+        if (want_max and c >= 0) or (not want_max and c < 0):
+            best = x
+    return opt_some(best)
+
+
+@model(IT + "partition")
+def m_it_partition(ctx, cty, a):
+    from .models_coll import collect_into
+    xs = iter_drain(ctx, a[0])
+    f = new_ref(a[1], True)
+    yes, no = [], []
+    for x in xs:
+        (yes if ctx.decide(ctx.call_closure(f, [new_ref(x)])) else no).append(x)
+    t = generic_arg(cty, 0)
+    return tup(collect_into(ctx, t, seq_iter(yes)), collect_into(ctx, t, seq_iter(no)))
+
+
+@model(IT + "unzip")
+def m_it_unzip(ctx, cty, a):
+    xs = iter_drain(ctx, a[0])
+    return tup(VecObj([x.fields[0] for x in xs]), VecObj([x.fields[1] for x in xs]))
+
+
+@model(IT + "try_for_each")
+def m_it_try_for_each(ctx, cty, a):
+    src, f = a[0], new_ref(a[1], True)
+    while True:
+        v = iter_next(ctx, src)
+        if v is STOP:
+            return res_ok(unit())
+        r = ctx.call_closure(f, [v])
+        if type(r) is Agg and r.variant == 1:
+            return r
+
+
+@model(IT + "eq")
+def m_it_eq(ctx, cty, a):
+    xs = iter_drain(ctx, a[0])
+    ys = iter_drain(ctx, to_iter(ctx, a[1]))
+    if len(xs) != len(ys):
+        return False
+    return b_and(*[struct_eq(ctx, x, y) for x, y in zip(xs, ys)])
+
+
+@model(IT + "cmp")
+def m_it_cmp(ctx, cty, a):
+    xs = iter_drain(ctx, a[0])
+    ys = iter_drain(ctx, to_iter(ctx, a[1]))
+    for x, y in zip(xs, ys):
+        c = key_cmp(ctx, x, y)
+        if c != 0:
+            return ordering(c)
+    return ordering(-1 if len(xs) < len(ys) else (0 if len(xs) == len(ys) else 1))
+
+
+@model(IT + "product")
+def m_it_product(ctx, cty, a):
+    t = 1
+    for x in iter_drain(ctx, a[0]):
+        t = t * deref(x)
+    return t
+
+
+@model(IT + "step_by", IT + "cycle")
+def m_it_unsupported(ctx, cty, a):
+    raise Inconclusive("iterator adaptor %s" % cty.c[0][0])
+
+
+@model("<_ as std::clone::Clone>::clone_from")
+def m_clone_from(ctx, cty, a):
+    a[0].set(clone_value(ctx, deref1(a[1])))
+    return unit()
+
+
+@model("<_ as std::default::Default>::default")
+def m_default(ctx, cty, a):
+    return default_for(ctx, cty.a)
